@@ -74,18 +74,20 @@ SPEC = dict(
     histogram=histogram,
     translate=translate,
     rule="88% DNA cases, 12% Protein cases (K=21: counts->to_freq->to_scoring, arbitrary finite, ties, constant; X column -inf or "
-         "finite; only Pipeline::generic()/sse2() exist for Protein u8 scoring), 3% (thorough 1%) wide DNA motifs of 100..700 "
-         "(thorough ..2000) rows on a sequence a few symbols longer than the consensus word. "
+         "finite; only Pipeline::generic()/sse2() exist for Protein u8 scoring), 3% (thorough 0.5%) wide DNA motifs of 100..700 "
+         "(thorough ..1400) rows on a sequence a few symbols longer than the consensus word. "
          "DNA scoring matrices of width 0..40 (thorough: ..64) given as f32 bit patterns: CountMatrix->to_freq->"
          "to_scoring (25%), arbitrary finite cells (30%), half-integers with ties/constant rows/signed zeros (12%), "
          "constant matrices (5%), arbitrary finite bit patterns (8%), ill-conditioned (3%, the known IEEE gap), "
          "matrices around the boundary of the conditioning predicate (7%), non-finite non-wildcard cells (4%, "
          "outside the theorem, inside the model), one dominant + many flat rows (5%), empty (1%); wildcard column "
          "-inf (45%), finite below the row minimum (10%), finite inside the row's range (10%), the row minimum, 0, "
-         "above the row maximum, random, +inf/NaN; sequences of length 0..260 (thorough ..700) built from the consensus "
+         "above the row maximum, random, +inf/NaN; generator families added in round 3 (3 + 2 + 3 % of the DNA stream): tiny "
+         "(range <= 255*EPSILON down to subnormal factors, or cells a few ulps apart), hugecell (one cell 65536, 1e9, +-1e30, +-1e38 or 3e38), cpg (the whole "
+         "range in one pair of adjacent rows: pair sums >= 256); sequences of length 0..260 (thorough ..700) built from the consensus "
          "word, the minimum word, near-consensus words, words with wildcards, runs of N and random stretches; 30-45 "
          "thresholds per case (+-inf, NaN, +-0, min/max score and both neighbours, min - {0.002,0.01,0.5,1,1.5}*range, "
-         "max + 0.01*range, min-1, max+1, attainable scores, the real scores of up to 5 windows of the sequence "
+         "max + 0.01*range, min-1, max+1, f32::MAX/MIN, +-MIN_POSITIVE, +-smallest subnormal, +-1e30, attainable scores, the real scores of up to 5 windows of the sequence "
          "(windows with N first) and their neighbours, random in and around the range, one arbitrary finite). "
          "Observed and compared bit-exactly with the extracted binary32/u8 model (DIFF): factor, offset, offsets "
          "(read from the Debug output), min/max_score, all discrete cells, scale(t), unscale(b), "
@@ -104,37 +106,67 @@ SPEC = dict(
          "implementation's OWN images, not the model's: dm.scale(real score of position i) <= byte score, and for "
          "every threshold t_j with t_j <= real score (IEEE <= on the observed bit patterns) dm.scale(t_j) <= byte "
          "score (PROPFAIL threshold-transfer-lost), so that a wrong scale() is a failing input and not only a DIFF. "
+         "30% of the DNA cases (thorough tier 12%) carry 2-3 histories on ONE reused StripedScores<u8,U32> (score_into / "
+         "score_rows_into with 4 motif variants, 5 sequence variants, random row ranges, Pipeline::generic()/sse2()/avx2() and the "
+         "forced dispatcher arms mixed on the same buffer, resize and matrix_mut().fill by the caller; every history ends with "
+         "score_into of the case's motif on the case's sequence); a third of them also carry histories on ONE StripedScores<u8,U16> "
+         "and 25% of the Protein cases carry histories (generic / SSE2 pipelines only): every step is compared (rows, max_index, "
+         "checksum; final buffer in full) with the extracted history model DiscHistory.hstep, and the final buffer of a complete "
+         "history is one more source of byte scores for the property checkers (under-estimate via=hf<k>). "
+         "to_discrete / scale / unscale / DiscreteMatrix::score_position on the model side are built from the statement skeleton "
+         "GENERATED from pwm/mod.rs on every check (translate/disc_skel.py -> GenDiscSkel.v; C08_skeleton_as_modelled). "
+         "The byte score of position i is read from the observed cells with the extracted sc_index. Checks that cannot be made on a "
+         "case are printed behind the verdict (OK skipped=..) and counted in the input histogram; a missing or unparsable "
+         "observation is a DIFF (property-not-checked:..), never a silent OK. "
          "A failure of the main clause is tagged ill-conditioned iff the extracted predicate well_conditioned "
          "(factor = 0 or factor >= 8*(M+1)*ulp(sum of per-row max |cell|)) is false. Non-trivial: distinct (matrix, sequence) "
          "with M >= 2 and at least one scored position.",
     trusted_base=[
-        "Coq 8.16.1 kernel (coqc); vm_compute in wit_outcome / wit_finite / negz_outcome / negz_finite (binary32 witnesses) and in the Example lemmas; no native_compute; the binary32 theorems use Flocq's real-number semantics (classical axioms of the Reals library, allow-listed)",
+        "Coq 8.16.1 kernel (coqc); vm_compute in wit_outcome / wit_finite, skel_outcomes, history_example, neon_old_outcome, negz_outcome (binary32 / u8 witnesses), in closed case eliminations of DiscF32Mono.v / DiscF32Main.v and in the Example lemmas of C08.v; no native_compute; the binary32 theorems use Flocq's real-number semantics (classical axioms of the Reals library, allow-listed)",
         "Flocq 4.1.0 (BinarySingleNaN) as the definition of binary32 arithmetic, coq/base/IEEE.v wrappers "
         "(saturating casts, NaN canonicalisation)",
-        "extraction: ExtrOcamlBasic only (nat, Z, positive, list kept as extracted inductives); OCaml 4.13.1",
+        "extraction: ExtrOcamlBasic only (its Extract Inductive directives for bool, option, list, prod, unit, sumbool, sumor); no other "
+        "Extract Inductive, no Extract Constant (nat, Z, positive stay extracted inductives); OCaml 4.13.1",
         "translate/disc_u8.py (regex / brace-matching extraction from avx2.rs, neon.rs, dispatch.rs, pli/mod.rs; unknown "
         "statement shapes are an error) and the semantics given to the intrinsics in coq/disc/DiscU8Kernel.v "
         "(_mm256_shuffle_epi8, _mm256_adds_epu8 / _mm256_add_epi8, vqtbl1q_u8, vqaddq_u8 / vaddq_u8, 16-byte table loads); "
         "NEON code is never executed by the check",
-        "hand-written OCaml driver ocaml/disc/driver.ml (parsing, printing, comparison, selection of the byte "
-        "score of position i as cell (i mod rows, i / rows))",
+        "translate/disc_skel.py (tokeniser + statement matcher + float-expression parser for the bodies of ScoringMatrix::to_discrete and "
+        "DiscreteMatrix::{score_position, scale, unscale} in pwm/mod.rs; unknown statement shapes are an error) and the meaning given to "
+        "the skeleton in coq/disc/DiscSkel.v",
+        "hand-written OCaml driver ocaml/disc/driver.ml (parsing, printing, comparison, choice of the sources of byte scores handed to "
+        "the extracted checkers, the list of printed skips; the byte score of position i is read with the extracted sc_index)",
+        "hand-written PROPFAIL paths that remain in ocaml/disc/driver.ml: the `backend-mismatch` family only (string comparison of two "
+        "OBSERVED score matrices: avx / dG / dS / dA / sse against gen, s16 against g16, sA against sG; an arm that panicked where the "
+        "generic pipeline did not on a non-empty motif; the translated NEON kernel model against the generic model at 32 and 16 "
+        "columns). Every under-estimate / threshold-transfer-lost verdict comes from the extracted first_bad / first_bad_impl; the tag "
+        "ill-conditioned from the extracted well_conditioned; the tag negative-zero-factor is a hand-written bit test that only labels "
+        "a failure the extracted checker found",
         "Rust harness harness/src/bin/disc.rs (generator, catch_unwind around every library call, factor/offset/"
         "offsets recovered from the derived Debug output of DiscreteMatrix, whose float formatting round-trips)",
-        "modelled, not verified: pwm/mod.rs (to_discrete, scale, unscale, score_position), pli/mod.rs (generic "
-        "score_rows_into, Accumulate), avx2.rs (score_u8_avx2_shuffle and its wrapper; intrinsics loadu/"
+        "modelled, not verified: pwm/mod.rs max_score / min_score (hand model; to_discrete, scale, unscale, score_position are "
+        "translated), pli/mod.rs (generic score_rows_into writing into the caller's buffer, Accumulate), StripedScores::resize and "
+        "matrix_mut().fill (coq/disc/DiscHistory.v buf_resize; replayed in the histories), avx2.rs (score_u8_avx2_shuffle and its wrapper; intrinsics loadu/"
         "broadcastsi128/shuffle_epi8/adds_epu8 lane-wise), dispatch.rs arm table, striped layout in closed "
         "form (C04), StripedScores indexing",
     ],
     assumptions=[
-        "the full statement is proved in EXACT arithmetic (extended rationals). For binary32 (what the code "
-        "computes) it is false on ill-conditioned matrices (C08_ieee_refuted, known finding F14) and, for the "
-        "consequence clause, with the factor -0.0 (C08_threshold_transfer_f32_refuted_negzero, F14b). Proved for "
-        "binary32 (Flocq): scale monotone and threshold transfer whenever the factor's sign bit is clear; the main "
-        "clause for every window under the conditioning predicate well_conditioned PLUS three side conditions "
-        "(sign bit of the factor clear, at most 16384 rows, cond_A <= 2^126) -- "
-        "C08_f32_main_well_conditioned_partial; without the side conditions the binary32 main clause is only "
+        "the full statement is proved in EXACT arithmetic (extended rationals), for every alphabet size and column count on the "
+        "generic kernel (C08_generic_backend_overestimates), for K <= 16 and 32 columns on the AVX2 kernel and the x86 dispatcher "
+        "(C08_backends_overestimate), for K <= 16 and 16 q columns on the NEON kernel and the Arm-host dispatcher "
+        "(C08_arm_hosts_overestimate). For binary32 (what the code computes) it is false on ill-conditioned matrices "
+        "(C08_ieee_refuted, known finding F14). Proved for binary32 (Flocq): scale monotone and threshold transfer for every factor "
+        "to_discrete can produce (its sign bit is clear: C08_factor_sign_clear; the -0.0 factor of F14b was repaired in /repo "
+        "fd98893); the main clause for every window under the conditioning predicate well_conditioned PLUS TWO side conditions (at "
+        "most 16384 rows, cond_A <= 2^126) -- C08_f32_main_well_conditioned_partial, C08_generic_backend_overestimates_f32_partial, "
+        "C08_backends_overestimate_f32_partial, C08_history_overestimates_f32_partial; without them the binary32 main clause is only "
         "checked on every run by the correspondence harness",
+        "histories: the state of a StripedScores buffer after a call that PANICKED is not modelled (a history ends at its first "
+        "panic); C08_scores_history covers the generic, AVX2 and NEON kernels' stores on a reused buffer (NEON with 16 q columns)",
+        "unscale: proved in exact arithmetic for factor > 0 only (C08_unscale_scale, C08_unscale_bounds_real: real score < "
+        "unscale(byte score) + factor for every window whose real score is below offset + 256 factor); in binary32 unscale is bit-compared, no theorem. The `unscale(u8) >= expected` of "
+        "lightmotif/tests/dna.rs is not implied by the code and is not claimed",
         "Iterator::sum::<f32>() starts from -0.0 (observed on rustc 1.95; bit-compared on every run)",
-        "symbols of a sequence index inside the matrix rows (K = 5 for DNA); the wildcard is the last column",
+        "symbols of a sequence index inside the matrix rows (K = 5 for DNA, 21 for Protein); the wildcard is the last column",
     ],
 )
